@@ -204,7 +204,31 @@ class BkAdd(BkExpr):
 sys.path.insert(0, os.path.dirname(os.path.dirname(os.path.abspath(__file__))))
 import wsgrammar  # noqa: E402  (a refinement OBJECT with parameters of its own -- a probability matrix -- that lives as long as the process)
 
+class TwExpr(ABC):
+    pass
+
+
+@dataclass
+class TwLit(TwExpr):
+    a: Annotated[int, IntRange(0, 9)]
+    b: Annotated[int, IntRange(0, 9)]
+
+
+@dataclass
+class TwVar(TwExpr):
+    n: Annotated[str, VarRange(["x", "y"])]
+    m: Annotated[str, VarRange(["x", "y"])]
+
+
+@dataclass
+class TwAdd(TwExpr):
+    l: TwExpr
+    r: TwExpr
+    w: Annotated[int, IntRange(0, 9)]
+
+
 GRAMMARS = {
+    "twins": ([TwLit, TwVar, TwAdd], TwExpr),
     "wstrings": ([wsgrammar.Seq, wsgrammar.Join], wsgrammar.E),
     # a production that fails in some contexts (creation backtracks to its siblings)
     "backtrack": ([BkRef, BkLit, BkNeg, BkAdd], BkExpr),
